@@ -133,7 +133,13 @@ func allParked(gs []int64) bool {
 type PCtx struct {
 	context.Context
 	Name   string
+	Kind   string // how this context ends: "cancel" | "deadline" | "parent"
 	cancel context.CancelFunc
+	// Kind "deadline": the expiry is played by the harness at the moment it chooses: Done() is own,
+	// Err() is context.DeadlineExceeded from then on (Deadline() reports a deadline all along)
+	own    chan struct{}
+	ownErr error
+	ownMu  sync.Mutex
 
 	mu      sync.Mutex
 	forced  bool
@@ -173,9 +179,59 @@ func (c *PCtx) Cancel() {
 	c.mu.Unlock()
 }
 
-func newPCtx(name string, forced bool) *PCtx {
-	c, cancel := context.WithCancel(context.Background())
-	return &PCtx{Context: c, Name: name, cancel: cancel, forced: forced, priming: forced}
+func newPCtx(name string, forced bool) *PCtx { return newPCtxKind(name, forced, "cancel") }
+
+var bcastEndText = map[string]string{
+	"cancel":   "cancel() had returned",
+	"deadline": "its deadline had expired: ctx.Err() == context.DeadlineExceeded",
+	"parent":   "its parent context had been cancelled",
+}
+
+// BcastEndKinds are the ways a receiver's context can end.
+var BcastEndKinds = []string{"cancel", "deadline", "parent"}
+
+func newPCtxKind(name string, forced bool, kind string) *PCtx {
+	p := &PCtx{Name: name, Kind: kind, forced: forced, priming: forced}
+	switch kind {
+	case "deadline":
+		c, release := context.WithDeadline(context.Background(), time.Now().Add(1000*time.Hour))
+		p.Context = c
+		p.own = make(chan struct{})
+		p.cancel = func() {
+			p.ownMu.Lock()
+			if p.ownErr == nil {
+				p.ownErr = context.DeadlineExceeded
+				close(p.own)
+			}
+			p.ownMu.Unlock()
+			release()
+		}
+	case "parent":
+		parent, cancelParent := context.WithCancel(context.Background())
+		c, release := context.WithCancel(parent)
+		p.Context = c
+		p.cancel = func() { cancelParent(); _ = release } // only the parent is cancelled
+	default:
+		c, cancel := context.WithCancel(context.Background())
+		p.Context, p.cancel = c, cancel
+	}
+	return p
+}
+
+func (c *PCtx) rawDone() <-chan struct{} {
+	if c.own != nil {
+		return c.own
+	}
+	return c.Context.Done()
+}
+
+func (c *PCtx) rawErr() error {
+	if c.own != nil {
+		c.ownMu.Lock()
+		defer c.ownMu.Unlock()
+		return c.ownErr
+	}
+	return c.Context.Err()
 }
 
 func (c *PCtx) isForced() bool { c.mu.Lock(); defer c.mu.Unlock(); return c.forced }
@@ -224,14 +280,14 @@ func (c *PCtx) Done() <-chan struct{} {
 			}
 		}
 	}
-	return c.Context.Done()
+	return c.rawDone()
 }
 
 // Err is called by the processing goroutine after every dequeue.
 func (c *PCtx) Err() error {
 	if !c.isForced() {
 		c.mu.Lock()
-		e := c.Context.Err()
+		e := c.rawErr()
 		c.errCalls++
 		if c.bGid == 0 {
 			c.bGid = gid()
@@ -250,10 +306,10 @@ func (c *PCtx) Err() error {
 	priming := c.priming
 	c.mu.Unlock()
 	if priming {
-		return c.Context.Err()
+		return c.rawErr()
 	}
 	c.park("errpre")
-	e := c.Context.Err()
+	e := c.rawErr()
 	if e == nil {
 		c.park("errpost")
 	}
@@ -408,8 +464,8 @@ func ReplayBcast(t *testing.T, rep *Report, tg BcastTarget, cases []V) {
 				}
 				if lim, ok := allowed[h]; ok && len(inv) > lim {
 					m := inv[len(inv)-1]
-					bad = fmt.Sprintf("step %d %s: handler %s was handed message %s although its context had been cancelled before the message was dequeued", i+1, a, h, msgKey(m.Sender, m.Seqno))
-					rep.Diverge("replay:"+tg.Name+":after-cancel", bad, ctxOf, lim, len(inv))
+					bad = fmt.Sprintf("step %d %s: handler %s was handed message %s although its context had ended (%s) before the message was dequeued", i+1, a, h, msgKey(m.Sender, m.Seqno), bcastEndText[p.Kind])
+					rep.Diverge("replay:"+tg.Name+":after-"+p.Kind, bad, ctxOf, lim, len(inv))
 					return false
 				}
 			}
@@ -523,7 +579,16 @@ func ReplayBcast(t *testing.T, rep *Report, tg BcastTarget, cases []V) {
 			case "Retransmit":
 				rig.Redeliver(m.Get("s").Str(), uint64(m.Get("n").Int()))
 			case "Register":
-				p := newPCtx(h, true)
+				// the way this handler's context will end is fixed when the context is made
+				kind := "cancel"
+				for _, later := range steps[i:] {
+					if a := later.Get("a").Str(); (a == "Cancel" || a == "CancelRemove") && later.Get("h").Str() == h {
+						kind = later.Get("st").Get("h").Get(h).Get("kind").Str()
+						break
+					}
+				}
+				rep.Count("context_end_"+kind, 1)
+				p := newPCtxKind(h, true, kind)
 				ctxs[h] = p
 				rig.Register(p, p.handler)
 				rig.Prime(p)
@@ -801,8 +866,11 @@ func (r *bcastRun) checkRoom(kind string) {
 	}
 }
 
-func (r *bcastRun) register(h string) {
-	p := newPCtx(h, false)
+func (r *bcastRun) register(h string) { r.registerKind(h, "cancel") }
+
+// registerKind registers a handler whose context will end the given way.
+func (r *bcastRun) registerKind(h, kind string) {
+	p := newPCtxKind(h, false, kind)
 	if r.chk {
 		// only reads that found the context live are recorded: what a cancelled
 		// handler's goroutine does with its queue has no observable consequence
@@ -839,7 +907,7 @@ func (r *bcastRun) cancel(h string) {
 	r.mu.Lock()
 	p := r.ctxs[h]
 	r.mu.Unlock()
-	r.rec.log(map[string]interface{}{"event": "CancelCall", "h": h})
+	r.rec.log(map[string]interface{}{"event": "CancelCall", "h": h, "kind": p.Kind})
 	p.Cancel()
 	r.rec.log(map[string]interface{}{"event": "CancelRet", "h": h})
 }
@@ -1029,10 +1097,11 @@ func RecordBcast(t *testing.T, rep *Report, tg BcastTarget, tr *Tracer, runs int
 		type hplan struct {
 			regAfter, cancelAfter int // in units of "messages published"; cancelAfter < 0: never
 			slow                  bool
+			kind                  string // how the context ends
 		}
 		plans := map[string]hplan{}
 		for _, h := range hs {
-			p := hplan{regAfter: 0, cancelAfter: -1, slow: rnd.Intn(3) == 0}
+			p := hplan{regAfter: 0, cancelAfter: -1, slow: rnd.Intn(3) == 0, kind: BcastEndKinds[rnd.Intn(len(BcastEndKinds))]}
 			if rnd.Intn(3) == 0 {
 				p.regAfter = rnd.Intn(nMsg)
 			}
@@ -1056,7 +1125,7 @@ func RecordBcast(t *testing.T, rep *Report, tg BcastTarget, tr *Tracer, runs int
 			go func() {
 				defer wg.Done()
 				published.waitAtLeast(p.regAfter)
-				r.register(h)
+				r.registerKind(h, p.kind)
 				if p.cancelAfter >= 0 {
 					published.waitAtLeast(p.cancelAfter)
 					r.cancel(h)
@@ -1201,7 +1270,8 @@ func SeqnoBcast(t *testing.T, rep *Report, tg BcastTarget, tr *Tracer, rounds in
 // message 2 must never reach the handler. A second live handler shows that
 // the channel still works, and a closing message bounds the observation.
 func ForceBcast(t *testing.T, rep *Report, tg BcastTarget, tr *Tracer, reps int) {
-	for i := 0; i < reps; i++ {
+	for i := 0; i < reps*len(BcastEndKinds); i++ {
+		kind := BcastEndKinds[i%len(BcastEndKinds)] // reps repetitions for every way a context can end
 		r := newBcastRun(t, tg, []string{"s1"}, []string{"s3", "f"})
 		gate := make(chan struct{})
 		entered := make(chan struct{}, 4)
@@ -1211,7 +1281,7 @@ func ForceBcast(t *testing.T, rep *Report, tg BcastTarget, tr *Tracer, reps int)
 				<-gate
 			}
 		}
-		r.register("h1")
+		r.registerKind("h1", kind)
 		r.register("h2")
 		n1 := r.send("s1", false, "one")
 		select {
@@ -1233,9 +1303,9 @@ func ForceBcast(t *testing.T, rep *Report, tg BcastTarget, tr *Tracer, reps int)
 		// time to show itself (waiting longer can only find more)
 		time.Sleep(time.Duration(IntEnv("VERIF_SETTLE_MS", 20)) * time.Millisecond)
 		if r.sawInvoke("h1", "s1", n2) {
-			rep.Diverge("after-cancel:"+tg.Name,
-				fmt.Sprintf("%s: a handler was handed message %d although its context had been cancelled (and cancel had returned) before the message could be dequeued: handler parked in message %d, message %d enqueued, cancel, release", tg.Name, n2, n1, n2),
-				map[string]interface{}{"repetition": i}, "message 2 never handed to the handler", "handed")
+			rep.Diverge("after-"+kind+":"+tg.Name,
+				fmt.Sprintf("%s: a handler was handed message %d although its context had ended (%s) before the message could be dequeued: handler parked in message %d, message %d enqueued, context ended, release", tg.Name, n2, bcastEndText[kind], n1, n2),
+				map[string]interface{}{"repetition": i, "kind": kind}, "message 2 never handed to the handler", "handed")
 		}
 		if !r.sawInvoke("h2", "s1", n1) || !r.sawInvoke("h2", "s1", n2) {
 			rep.Diverge("lost:"+tg.Name, fmt.Sprintf("%s: live handler h2 was handed the closing message but not both earlier messages", tg.Name),
@@ -1243,7 +1313,7 @@ func ForceBcast(t *testing.T, rep *Report, tg BcastTarget, tr *Tracer, reps int)
 		}
 		r.obsHandlers()
 		r.directDuplicateCheck(rep, "forcing")
-		rep.Eval(tg.Name+":forcing", map[string]interface{}{"target": tg.Name, "scenario": "forcing"})
+		rep.Eval(tg.Name+":forcing:"+kind, map[string]interface{}{"target": tg.Name, "scenario": "forcing", "kind": kind})
 		r.finish(tr, rep, "forcing")
 	}
 }
@@ -1254,9 +1324,10 @@ func ForceBcast(t *testing.T, rep *Report, tg BcastTarget, tr *Tracer, reps int)
 // context and, possibly, the message; whichever it takes, the handler must not
 // be called).
 func IdleCancelBcast(t *testing.T, rep *Report, tg BcastTarget, tr *Tracer, reps int) {
-	for i := 0; i < reps; i++ {
+	for i := 0; i < reps*len(BcastEndKinds); i++ {
+		kind := BcastEndKinds[i%len(BcastEndKinds)]
 		r := newBcastRun(t, tg, nil, []string{"s3", "f"})
-		r.register("h1")
+		r.registerKind("h1", kind)
 		r.register("h2")
 		n1 := r.send("s3", true, "one")
 		if !Eventually(60*time.Second, func() bool { return r.sawInvoke("h1", "s3", n1) && r.sawInvoke("h2", "s3", n1) }) {
@@ -1274,12 +1345,12 @@ func IdleCancelBcast(t *testing.T, rep *Report, tg BcastTarget, tr *Tracer, reps
 		r.fence([]string{"h2"})
 		time.Sleep(time.Duration(IntEnv("VERIF_SETTLE_MS", 20)) * time.Millisecond)
 		if r.sawInvoke("h1", "s3", n2) {
-			rep.Diverge("after-cancel-idle:"+tg.Name,
-				fmt.Sprintf("%s: a handler whose context had been cancelled (cancel had returned) while it was waiting for messages was handed a message published afterwards", tg.Name),
-				map[string]interface{}{"repetition": i}, "message 2 never handed to the handler", "handed")
+			rep.Diverge("after-"+kind+"-idle:"+tg.Name,
+				fmt.Sprintf("%s: a handler whose context had ended (%s) while it was waiting for messages was handed a message published afterwards", tg.Name, bcastEndText[kind]),
+				map[string]interface{}{"repetition": i, "kind": kind}, "message 2 never handed to the handler", "handed")
 		}
 		r.directDuplicateCheck(rep, "idle-cancel")
-		rep.Eval(tg.Name+":idle-cancel", map[string]interface{}{"target": tg.Name, "scenario": "idle-cancel"})
+		rep.Eval(tg.Name+":idle-cancel:"+kind, map[string]interface{}{"target": tg.Name, "scenario": "idle-cancel", "kind": kind})
 		r.finish(tr, rep, "idle-cancel")
 	}
 }
